@@ -111,3 +111,21 @@ package topology
 //@   ensures [unknownTopologyNoNodeSets] old(subGroup.topologyConstraint != nil && subGroup.topologyConstraint.Topology != "" && t.TopologyTrees[subGroup.topologyConstraint.Topology] == nil) ==> len(result0) == 0 && result1 == nil
 //@   ensures [childNodeSetsWithinParentNodeSet] result1 == nil ==> forall a int, b int :: 0 <= a && a < len(result0) && 0 <= b && b < len(result0[a]) ==> exists i int :: 0 <= i && i < len(nodeSet) && result0[a][b].Name == old(nodeSet[i].Name)
 //@ end
+
+// C04: "all of its pods placed by a decision, together with its already active pods, lie in one
+// domain": a domain "has an active pod of the job" iff some pod of some pod set is in an
+// active-allocated status and its node is one of the domain's nodes. getRelevantDomainsWithAllocatedPods
+// keeps only (sub-trees of) required-level domains for which this holds.
+//@ define activeIn(p *pod_info.PodInfo, d *DomainInfo) bool = pod_status.aaClass(p.Status) && d.Nodes[p.NodeName] != nil
+
+//@ func hasActiveJobPodInDomain
+//@   props C04
+//@   requires domain != nil
+//@   requires forall k in podSets :: podSets[k] != nil && (forall u in podSets[k].podInfos :: podSets[k].podInfos[u] != nil)
+//@   pure
+//@   loop 1
+//@     invariant forall k in visited :: forall u in podSets[k].podInfos :: !activeIn(podSets[k].podInfos[u], domain)
+//@   loop 2
+//@     invariant forall u in visited :: !activeIn(podSet.podInfos[u], domain)
+//@   ensures [activePodOnDomainNode] result == (exists k in podSets :: exists u in podSets[k].podInfos :: activeIn(podSets[k].podInfos[u], domain))
+//@ end
